@@ -1006,6 +1006,8 @@ func c33Constructed() []c33Bytes {
 		add("reject", "indexed static, index out of range", pint(0xc0, 6, idx))
 		add("reject", "indexed static, index out of range, after a good line", good, pint(0xc0, 6, idx))
 	}
+	add("reject", "indexed static, index 2^63 (wraps int64)", pint(0xc0, 6, 1<<63))
+	add("reject", "name reference static, index 2^63 (wraps int64)", pint(0x50, 4, 1<<63), str(0, 7, "v"))
 	add("reject", "indexed static, integer overflows 64 bits", []byte{0xff, 0xff, 0xff, 0xff, 0xff, 0xff, 0xff, 0xff, 0xff, 0xff, 0x7f})
 	add("reject", "indexed static, truncated integer", []byte{0xff})
 	add("reject", "indexed static, truncated integer", []byte{0xff, 0x80})
@@ -1042,6 +1044,10 @@ func c33Constructed() []c33Bytes {
 		add("reject", "literal name longer than section", []byte{0x23 | n, 'a', 'b'})
 		add("reject", "literal name length 2^30", pint(0x20|n, 3, 1<<30), []byte("abc"))
 		add("reject", "literal name length 2^62", pint(0x20|n, 3, 1<<62), []byte("abc"))
+		add("reject", "literal name length 2^63 (wraps int64)", pint(0x20|n, 3, 1<<63), []byte("abc"))
+		add("reject", "literal name length 2^63+2^62", pint(0x20|n, 3, 1<<63+1<<62), []byte("abc"))
+		add("reject", "literal name, value length 2^63 (wraps int64)", str(0x20|n, 3, "abc"), pint(0, 7, 1<<63), []byte("v"))
+		add("reject", "literal name, value length 2^64-1", str(0x20|n, 3, "abc"), pint(0, 7, 1<<64-1), []byte("v"))
 		add("reject", "literal name, value missing", str(0x20|n, 3, "abc"))
 		add("reject", "literal name, value longer than section", str(0x20|n, 3, "abc"), []byte{0x05, 'v'})
 		add("reject", "literal name, value length 2^30", str(0x20|n, 3, "abc"), pint(0, 7, 1<<30), []byte("v"))
